@@ -4,5 +4,6 @@ ASSUME JsonSerialize(IOEnv.OUT, [lim |-> LimCases, aw |-> AWCases, cmp |-> CmpCa
                                  hist |-> {HistCase(h, d) : h \in HistCalls(4), d \in {1, 2}} \cup {HistCase(h, 1) : h \in HistCalls(3)},
                                  rt |-> RTCases(5), rl |-> RLCases, awr |-> AWRCases,
                                  samp |-> {SampCase(h) : h \in MonoCalls(5)},
+                                 gate |-> GateCases, adj |-> AdjCases, awadj |-> AWAdjCases, awlock |-> AWLockSane, sorted |-> SLCases,
                                  degenerate |-> Cardinality(DegenerateCases)])
 ====
